@@ -239,13 +239,19 @@ def u_include_loop(I):
     scheme = Obj(BuiltinClass('AnyScheme'), {}, 'param')
     LibC = BuiltinClass('AbsLibrary')
     new_lib = Obj(LibC, {'id': ctx.fresh('new_lib', 'int'), 'merged': z3.IntVal(0)}, 'param')
-    state = {'merged': z3.IntVal(0)}
+    state = {'merged': z3.IntVal(0), 'load_failed': False}
 
     def load(I_, a, k):
         # cls._Load(path, scheme)
         if len(a) != 3 or k:
             raise Unsupported('_Load called with other arguments than (path, scheme)')
         ctx.oblige('an included file is loaded with the scheme of the including library', z3.BoolVal(a[2] is scheme), site='_Load')
+        # loading the included file (which is _do_load again) may itself be rejected: a group under two spellings (KeyError), two different values for one
+        # datum somewhere below it (ReadOnlyDataError).  Such a rejection is the rejection of the whole library - it must not be swallowed by the include loop.
+        c_ = ctx.choose([True, True, True], 'included file: loads / duplicate spelling inside / conflict inside')
+        if c_:
+            state['load_failed'] = True
+            raise I_.exc(['KeyError', 'ReadOnlyDataError'][c_ - 1], 'rejected inside an included file')
         return Obj(LibC, {'id': LoadId(z3_of(a[1])), 'path': z3_of(a[1])}, 'fresh')
     W_.contracts[(LIB, 'GroupLibrary._Load')] = load
 
@@ -283,8 +289,11 @@ def u_include_loop(I):
         if e.obj.cls.name in ('NameError', 'UnboundLocalError'):
             raise Unsupported('extracted statement reads a variable defined outside it (%s)' % (e.obj.fields.get('args'),))
         out = Outcome('raise', e.obj)
-    check_outcome(I, out, raises={'ReadOnlyDataError': z3.BoolVal(True)}, returns=lambda r: [('every include has been merged, each exactly once', state['merged'] == n)]) if out.kind == 'raise' else \
-        check_outcome(I, out, raises={}, returns=lambda r: [('every include has been merged, each exactly once', state['merged'] == n)])
+    if out.kind == 'raise':
+        check_outcome(I, out, raises={'ReadOnlyDataError': z3.BoolVal(True), 'KeyError': z3.BoolVal(True)})
+    else:
+        check_outcome(I, out, raises={}, returns=lambda r: [('every include has been merged, each exactly once', state['merged'] == n),
+                                                            ('a file that was rejected while it was being included makes the whole load fail (the include loop swallows nothing)', z3.BoolVal(not state['load_failed']))])
     return {'inputs': {}}
 
 
